@@ -43,7 +43,8 @@ _cache = {}
 
 def cert_b64(name):
     if name not in _cache:
-        s = open(crt(name)).read()
+        with open(crt(name)) as f:
+            s = f.read()
         _cache[name] = ''.join(l for l in s.splitlines() if '-----' not in l)
     return _cache[name]
 
@@ -52,7 +53,8 @@ def priv(name):
     k = ('priv', name)
     if k not in _cache:
         from cryptography.hazmat.primitives import serialization
-        _cache[k] = serialization.load_pem_private_key(open(key(name), 'rb').read(), None)
+        with open(key(name), 'rb') as f:
+            _cache[k] = serialization.load_pem_private_key(f.read(), None)
     return _cache[k]
 
 
@@ -60,7 +62,8 @@ def pub(name):
     k = ('pub', name)
     if k not in _cache:
         from cryptography import x509
-        _cache[k] = x509.load_pem_x509_certificate(open(crt(name), 'rb').read()).public_key()
+        with open(crt(name), 'rb') as f:
+            _cache[k] = x509.load_pem_x509_certificate(f.read()).public_key()
     return _cache[k]
 
 
